@@ -54,6 +54,8 @@ def build_cases(ctx):
         b = t.encode("utf-8")
         docs.append(b)
         cases.append(("generated", "", b, docgen.plain(tree), True))
+    for t, tree in docgen.header_order_documents(rng, 6000 if big else 800):
+        cases.append(("header-order", "", t.encode(), docgen.plain(tree), True))
     # byte x slot sweep (exhaustive)
     for b in range(256):
         for sl in SLOTS:
